@@ -1,1 +1,474 @@
 //! Verification hooks for the `svc` domain (`--cfg litep2p_verif` only).
+//!
+//! [`ServiceHarness`] puts real [`TransportService`]s (registered with a real
+//! [`TransportManager`], so they share its substream id allocator) in front of *scripted
+//! connections*: each scripted connection owns the real [`ProtocolSet`] a transport would get
+//! from [`TransportHandle::protocol_set`] and calls the real `report_*` methods on it, one call
+//! per harness method. Nothing is spawned: the driver decides when a service is polled and when a
+//! connection reads its command channel, so every interleaving can be scripted. All arguments
+//! and results are plain data.
+
+use crate::{
+    codec::ProtocolCodec,
+    error::SubstreamError,
+    executor::DefaultExecutor,
+    protocol::{
+        Direction, InnerTransportEvent, Permit, ProtocolCommand, ProtocolSet, SubstreamKeepAlive,
+        TransportEvent, TransportService,
+    },
+    substream::Substream,
+    transport::{
+        manager::{SupportedTransport, TransportHandle, TransportManager, TransportManagerBuilder},
+        tcp, Endpoint,
+    },
+    types::{protocol::ProtocolName, ConnectionId, SubstreamId},
+    BandwidthSink, PeerId,
+};
+
+use futures::{Future, FutureExt, StreamExt};
+use multiaddr::Multiaddr;
+use tokio_util::compat::FuturesAsyncReadCompatExt;
+
+use std::{
+    collections::HashMap,
+    sync::{
+        atomic::{AtomicBool, Ordering},
+        Arc,
+    },
+    task::{Context, Poll, Wake, Waker},
+    time::Duration,
+};
+
+/// Keep-alive timeout of the harness services. Long enough never to fire by itself during an
+/// execution; expiry is scripted with [`ServiceHarness::expire_keep_alive`].
+const KEEP_ALIVE: Duration = Duration::from_secs(120);
+
+/// What a [`TransportService`] returned from one `poll_next`.
+#[derive(Debug, Clone, PartialEq, Eq)]
+pub enum SvcEvent {
+    Established { peer: PeerId, cid: usize, listener: bool },
+    Closed { peer: PeerId },
+    /// `id` is `Some` for outbound substreams.
+    Opened { peer: PeerId, protocol: usize, fallback: bool, id: Option<usize> },
+    OpenFailure { id: usize, error: String },
+    DialFailure { peer: PeerId },
+    /// The stream ended.
+    Terminated,
+    /// Nothing to report.
+    Pending,
+}
+
+/// What a scripted connection read from its command channel.
+#[derive(Debug, Clone, PartialEq, Eq)]
+pub enum Cmd {
+    /// `cid` is the connection id written into the command by the service.
+    Open { protocol: usize, id: usize, cid: usize, keep_alive: bool },
+    ForceClose,
+    /// Every sender is gone: the connection would now close itself.
+    Closed,
+    Pending,
+}
+
+/// Result of [`ServiceHarness::close`].
+#[derive(Debug, Clone, PartialEq, Eq, Default)]
+pub struct CloseReport {
+    /// `report_connection_closed` returned `Ok`.
+    pub ok: bool,
+    /// `(peer, connection id)` the manager channel held after the call completed.
+    pub manager: Vec<(PeerId, usize)>,
+    /// Protocols whose inbox held the closed event for this connection when the call completed
+    /// (measured as growth of the inbox by one).
+    pub told: Vec<usize>,
+    /// Only with `clog`: the manager channel already held an event while the clogged protocol had
+    /// not been told yet.
+    pub manager_early: bool,
+    /// Only with `clog`: the call was still pending after its first poll (the probe was effective).
+    pub blocked: bool,
+    /// Only with `clog`: filler events taken out of the clogged inbox again.
+    pub filler: usize,
+}
+
+struct PendingOpen {
+    protocol: usize,
+    id: usize,
+    permit: Permit,
+}
+
+struct Conn {
+    peer: PeerId,
+    set: ProtocolSet,
+    pending: Vec<PendingOpen>,
+}
+
+struct Flag(AtomicBool);
+
+impl Wake for Flag {
+    fn wake(self: Arc<Self>) {
+        self.0.store(true, Ordering::SeqCst);
+    }
+}
+
+/// Real `TransportService`s + real `ProtocolSet`s of scripted connections.
+pub struct ServiceHarness {
+    manager: TransportManager,
+    handle: TransportHandle,
+    names: Vec<ProtocolName>,
+    services: Vec<TransportService>,
+    conns: HashMap<usize, Conn>,
+    /// Only used for its senders towards the services.
+    spare: ProtocolSet,
+}
+
+fn block<T>(future: impl Future<Output = T>) -> Option<T> {
+    future.now_or_never()
+}
+
+fn dummy_substream(peer: PeerId, id: usize, codec: ProtocolCodec) -> Substream {
+    let io = futures::io::Cursor::new(Vec::<u8>::new());
+    let mut connection =
+        crate::yamux::Connection::new(io, crate::yamux::Config::default(), crate::yamux::Mode::Client);
+    let waker = futures::task::noop_waker();
+    let mut cx = Context::from_waker(&waker);
+    let stream = match connection.poll_new_outbound(&mut cx) {
+        Poll::Ready(Ok(stream)) => stream,
+        _ => panic!("verif: in-memory yamux stream"),
+    };
+    let io = tcp::Substream::new(FuturesAsyncReadCompatExt::compat(stream), BandwidthSink::new(), None);
+    Substream::new_tcp(peer, SubstreamId::from(id), io, codec)
+}
+
+impl ServiceHarness {
+    /// One service per entry of `keep_alive` (`true` = `SubstreamKeepAlive::Yes`), all registered
+    /// with the same manager. Must be called inside a tokio runtime with the time driver enabled
+    /// (the services arm their real keep-alive timers).
+    pub fn new(keep_alive: &[bool]) -> Self {
+        let mut manager = TransportManagerBuilder::new()
+            .with_supported_transports([SupportedTransport::Tcp].into_iter().collect())
+            .build();
+        let names: Vec<ProtocolName> =
+            (0..keep_alive.len()).map(|i| ProtocolName::from(format!("/verif/svc/{i}"))).collect();
+        let services = names
+            .iter()
+            .zip(keep_alive)
+            .map(|(name, yes)| {
+                manager.register_protocol(
+                    name.clone(),
+                    Vec::new(),
+                    ProtocolCodec::UnsignedVarint(None),
+                    KEEP_ALIVE,
+                    if *yes { SubstreamKeepAlive::Yes } else { SubstreamKeepAlive::No },
+                )
+            })
+            .collect();
+        let handle = manager.transport_handle(Arc::new(DefaultExecutor));
+        let spare = handle.protocol_set(ConnectionId::from(usize::MAX));
+        Self { manager, handle, names, services, conns: HashMap::new(), spare }
+    }
+
+    fn index(&self, protocol: &ProtocolName) -> usize {
+        self.names.iter().position(|name| name == protocol).expect("verif: registered protocol")
+    }
+
+    /// Number of events waiting in the inbox of service `q`.
+    pub fn inbox_len(&self, q: usize) -> usize {
+        let tx = &self.spare.protocols.get(&self.names[q]).expect("protocol").tx;
+        tx.max_capacity() - tx.capacity()
+    }
+
+    /// A transport accepted connection `cid` with `peer`: build its `ProtocolSet` the way
+    /// transports do and announce it to the protocols. `Err` carries the error text; `None`
+    /// inside means the call would block (an inbox is full).
+    pub fn establish(&mut self, peer: PeerId, cid: usize, listener: bool, address: Multiaddr) -> Result<(), String> {
+        if self.conns.contains_key(&cid) {
+            return Err("verif: connection id in use".into());
+        }
+        let connection_id = ConnectionId::from(cid);
+        let endpoint = if listener {
+            Endpoint::listener(address, connection_id)
+        } else {
+            Endpoint::dialer(address, connection_id)
+        };
+        let mut set = self.handle.protocol_set(connection_id);
+        let result = match block(set.report_connection_established(peer, endpoint)) {
+            Some(Ok(())) => Ok(()),
+            Some(Err(error)) => Err(format!("{error:?}")),
+            None => Err("blocked".into()),
+        };
+        self.conns.insert(cid, Conn { peer, set, pending: Vec::new() });
+        result
+    }
+
+    fn drain_manager(&mut self) -> Vec<(PeerId, usize)> {
+        let mut out = Vec::new();
+        while let Some(event) = self.manager.verif_try_recv_event() {
+            out.push(event);
+        }
+        out
+    }
+
+    /// Connection `cid` ends: the real `report_connection_closed`. With `clog = Some(q)` the inbox
+    /// of service `q` is first filled up with `DialFailure` filler events so that the call blocks on
+    /// `q`; the manager channel is inspected while it is blocked, then the filler is taken out
+    /// again through the service and the call is completed. The `ProtocolSet` stays alive (commands
+    /// are still accepted) until [`Self::drop_connection`].
+    pub fn close(&mut self, cid: usize, clog: Option<usize>) -> Option<CloseReport> {
+        let before: Vec<usize> = (0..self.services.len()).map(|q| self.inbox_len(q)).collect();
+        let mut report = CloseReport::default();
+        let stale = self.drain_manager();
+        debug_assert!(stale.is_empty());
+        let mut filled = 0usize;
+        if let Some(q) = clog {
+            let tx = self.spare.protocols.get(&self.names[q]).expect("protocol").tx.clone();
+            while tx
+                .try_send(InnerTransportEvent::DialFailure { peer: PeerId::random(), addresses: Vec::new() })
+                .is_ok()
+            {
+                filled += 1;
+            }
+        }
+        let conn = self.conns.get_mut(&cid)?;
+        let peer = conn.peer;
+        let waker = futures::task::noop_waker();
+        let mut cx = Context::from_waker(&waker);
+        let mut early = Vec::new();
+        let result = {
+            let mut future = Box::pin(conn.set.report_connection_closed(peer, ConnectionId::from(cid)));
+            match future.as_mut().poll(&mut cx) {
+                Poll::Ready(result) => result,
+                Poll::Pending => {
+                    report.blocked = true;
+                    // the call is suspended on a full inbox: has the manager been told already?
+                    while let Some(event) = self.manager.verif_try_recv_event() {
+                        early.push(event);
+                    }
+                    let q = clog.expect("verif: close blocks only when clogged");
+                    let mut result = None;
+                    // take the filler out through the real service, completing the call on the way
+                    while report.filler < filled {
+                        match self.services[q].poll_next_unpin(&mut cx) {
+                            Poll::Ready(Some(TransportEvent::DialFailure { .. })) => report.filler += 1,
+                            other => panic!("verif: filler expected, got {other:?}"),
+                        }
+                        if result.is_none() {
+                            if let Poll::Ready(r) = future.as_mut().poll(&mut cx) {
+                                result = Some(r);
+                            }
+                        }
+                    }
+                    match result {
+                        Some(result) => result,
+                        None => match future.as_mut().poll(&mut cx) {
+                            Poll::Ready(result) => result,
+                            Poll::Pending => panic!("verif: close still blocked"),
+                        },
+                    }
+                }
+            }
+        };
+        if !report.blocked {
+            if let Some(q) = clog {
+                // not blocked (inbox was not full after all): just remove the filler
+                while report.filler < filled {
+                    match self.services[q].poll_next_unpin(&mut cx) {
+                        Poll::Ready(Some(TransportEvent::DialFailure { .. })) => report.filler += 1,
+                        other => panic!("verif: filler expected, got {other:?}"),
+                    }
+                }
+            }
+        }
+        report.ok = result.is_ok();
+        report.manager_early = !early.is_empty();
+        report.manager = early;
+        report.manager.extend(self.drain_manager());
+        report.told = (0..self.services.len()).filter(|q| self.inbox_len(*q) == before[*q] + 1).collect();
+        Some(report)
+    }
+
+    /// The connection task of `cid` is gone: its `ProtocolSet` (command channel, unanswered open
+    /// requests and their permits) is dropped. Commands still queued are read first and returned.
+    pub fn drop_connection(&mut self, cid: usize) -> Option<Vec<Cmd>> {
+        let mut unread = Vec::new();
+        loop {
+            match self.next_command(cid)? {
+                Cmd::Pending | Cmd::Closed => break,
+                cmd => unread.push(cmd),
+            }
+        }
+        self.conns.remove(&cid);
+        Some(unread)
+    }
+
+    /// Ids of the open requests connection `cid` has read and not answered yet.
+    pub fn pending_opens(&self, cid: usize) -> Vec<(usize, usize)> {
+        self.conns
+            .get(&cid)
+            .map(|conn| conn.pending.iter().map(|p| (p.protocol, p.id)).collect())
+            .unwrap_or_default()
+    }
+
+    /// The scripted connection polls its `ProtocolSet` once.
+    pub fn next_command(&mut self, cid: usize) -> Option<Cmd> {
+        let waker = futures::task::noop_waker();
+        let mut cx = Context::from_waker(&waker);
+        let conn = self.conns.get_mut(&cid)?;
+        Some(match conn.set.poll_next_unpin(&mut cx) {
+            Poll::Pending => Cmd::Pending,
+            Poll::Ready(None) => Cmd::Closed,
+            Poll::Ready(Some(ProtocolCommand::ForceClose)) => Cmd::ForceClose,
+            Poll::Ready(Some(ProtocolCommand::OpenSubstream {
+                protocol,
+                substream_id,
+                connection_id,
+                permit,
+                keep_alive,
+                ..
+            })) => {
+                let protocol = self.names.iter().position(|name| name == &protocol).expect("protocol");
+                let id = substream_id.verif_as_usize();
+                conn.pending.push(PendingOpen { protocol, id, permit });
+                Cmd::Open {
+                    protocol,
+                    id,
+                    cid: connection_id.verif_as_usize(),
+                    keep_alive: keep_alive == SubstreamKeepAlive::Yes,
+                }
+            }
+        })
+    }
+
+    /// Connection `cid` answers the open request `id`: `report_substream_open` with a dummy
+    /// substream and the request's permit, or `report_substream_open_failure` with the same id.
+    pub fn reply(&mut self, cid: usize, id: usize, opened: bool) -> Result<(), String> {
+        let conn = self.conns.get_mut(&cid).ok_or("verif: unknown connection")?;
+        let at = conn.pending.iter().position(|p| p.id == id).ok_or("verif: no such request")?;
+        let PendingOpen { protocol, permit, .. } = conn.pending.remove(at);
+        let name = self.names[protocol].clone();
+        let outcome = if opened {
+            let substream = dummy_substream(conn.peer, id, conn.set.protocol_codec(&name));
+            block(conn.set.report_substream_open(
+                conn.peer,
+                name,
+                Direction::Outbound(SubstreamId::from(id)),
+                substream,
+                permit,
+            ))
+            .map(|r| r.map_err(|e| format!("{e:?}")))
+        } else {
+            drop(permit);
+            block(conn.set.report_substream_open_failure(
+                name,
+                SubstreamId::from(id),
+                SubstreamError::ConnectionClosed,
+            ))
+            .map(|r| r.map_err(|e| format!("{e:?}")))
+        };
+        outcome.unwrap_or(Err("blocked".into()))
+    }
+
+    /// The remote opened a substream for protocol `q` on connection `cid`. `Err("nopermit")` when
+    /// the connection cannot get a permit any more (as `TcpConnection` checks first).
+    pub fn inbound(&mut self, cid: usize, q: usize) -> Result<(), String> {
+        let name = self.names[q].clone();
+        let conn = self.conns.get_mut(&cid).ok_or("verif: unknown connection")?;
+        let permit = conn.set.try_get_permit().ok_or("nopermit")?;
+        let substream = dummy_substream(conn.peer, 0, conn.set.protocol_codec(&name));
+        block(conn.set.report_substream_open(conn.peer, name, Direction::Inbound, substream, permit))
+            .map(|r| r.map_err(|e| format!("{e:?}")))
+            .unwrap_or(Err("blocked".into()))
+    }
+
+    /// `TransportService::open_substream`.
+    pub fn open_substream(&mut self, q: usize, peer: PeerId) -> Result<usize, String> {
+        self.services[q]
+            .open_substream(peer)
+            .map(|id| id.verif_as_usize())
+            .map_err(|error| match error {
+                SubstreamError::PeerDoesNotExist(_) => "PeerDoesNotExist".to_string(),
+                SubstreamError::ConnectionClosed => "ConnectionClosed".to_string(),
+                SubstreamError::ChannelClogged => "ChannelClogged".to_string(),
+                other => format!("{other:?}"),
+            })
+    }
+
+    /// `TransportService::force_close`.
+    pub fn force_close(&mut self, q: usize, peer: PeerId) -> Result<(), String> {
+        self.services[q].force_close(peer).map_err(|error| format!("{error:?}"))
+    }
+
+    /// Poll service `q` the way an executor would: once, and again as long as the service woke
+    /// itself while returning `Pending`.
+    pub fn poll_service(&mut self, q: usize) -> SvcEvent {
+        let flag = Arc::new(Flag(AtomicBool::new(false)));
+        let waker = Waker::from(flag.clone());
+        let mut cx = Context::from_waker(&waker);
+        for _ in 0..10_000 {
+            flag.0.store(false, Ordering::SeqCst);
+            match self.services[q].poll_next_unpin(&mut cx) {
+                Poll::Pending =>
+                    if !flag.0.load(Ordering::SeqCst) {
+                        return SvcEvent::Pending;
+                    },
+                Poll::Ready(None) => return SvcEvent::Terminated,
+                Poll::Ready(Some(event)) =>
+                    return match event {
+                        TransportEvent::ConnectionEstablished { peer, endpoint } => SvcEvent::Established {
+                            peer,
+                            cid: endpoint.connection_id().verif_as_usize(),
+                            listener: endpoint.is_listener(),
+                        },
+                        TransportEvent::ConnectionClosed { peer } => SvcEvent::Closed { peer },
+                        TransportEvent::SubstreamOpened { peer, protocol, fallback, direction, substream } => {
+                            drop(substream);
+                            SvcEvent::Opened {
+                                peer,
+                                protocol: self.index(&protocol),
+                                fallback: fallback.is_some(),
+                                id: match direction {
+                                    Direction::Inbound => None,
+                                    Direction::Outbound(id) => Some(id.verif_as_usize()),
+                                },
+                            }
+                        }
+                        TransportEvent::SubstreamOpenFailure { substream, error } =>
+                            SvcEvent::OpenFailure { id: substream.verif_as_usize(), error: format!("{error:?}") },
+                        TransportEvent::DialFailure { peer, .. } => SvcEvent::DialFailure { peer },
+                    },
+            }
+        }
+        panic!("verif: service keeps waking itself");
+    }
+
+    /// Let the keep-alive timeout of `(peer, cid)` at service `q` elapse (see
+    /// `KeepAliveTracker::verif_expire`); the downgrade happens in the next `poll_service(q)` that
+    /// finds the inbox empty. Returns `false` if the connection is not tracked.
+    pub fn expire_keep_alive(&mut self, q: usize, peer: PeerId, cid: usize) -> bool {
+        self.services[q].verif_expire_keep_alive(peer, cid)
+    }
+
+    /// `(primary id, primary active, Some((secondary id, secondary active)))` of `peer` at `q`.
+    pub fn connections(&self, q: usize, peer: &PeerId) -> Option<(usize, bool, Option<(usize, bool)>)> {
+        self.services[q].verif_connections(peer)
+    }
+
+    /// Connections tracked by the keep-alive tracker of service `q`.
+    pub fn keep_alive_tracked(&self, q: usize) -> Vec<(PeerId, usize)> {
+        self.services[q].verif_keep_alive_tracked()
+    }
+
+    /// Next value of the shared substream id allocator.
+    pub fn next_substream_id(&self) -> usize {
+        self.services[0].verif_next_substream_id()
+    }
+
+    /// Number of services.
+    pub fn services(&self) -> usize {
+        self.services.len()
+    }
+
+    /// Scripted connections whose `ProtocolSet` is alive.
+    pub fn connection_ids(&self) -> Vec<usize> {
+        let mut ids: Vec<usize> = self.conns.keys().copied().collect();
+        ids.sort();
+        ids
+    }
+}
